@@ -90,6 +90,7 @@ def _cases(tier, seed):
         out.append({"k": "text", "i0": i0, "i1": min(len(tinputs), i0 + 12), "tier": tier})
     out.append({"k": "plain"})
     out.append({"k": "extra"})
+    out.append({"k": "bigints"})
     return out
 
 
@@ -261,6 +262,40 @@ def run_case(case, R):
                             shutil.rmtree(scratch, ignore_errors=True)
                     if not isinstance(q, numpoly.ndpoly) or tuple(q.shape) != tuple(p.shape) or alpha(q) != model_of(sp):
                         R.fail("savetxt/loadtxt", "wrong-value", f"extra {i} {str(sp['t'])[:80]} via {target}: loaded {str(q)[:200]}", tags=["wide_or_magnitude"])
+    elif k == "bigints":
+        # integer coefficients beyond 2**53 written with an integer format and read back as integers: exact
+        vals = [2 ** 53 + 1, -(2 ** 53) - 1, 2 ** 62 + 3, 2 ** 63 - 1, -(2 ** 63) + 1, 123456789012345678, 7]
+        for shape in [(), (3,), (2, 2)]:
+            n = int(numpy.prod(shape)) if shape else 1
+            for rot in range(3):
+                cols = [[vals[(rot + i + 3 * j) % len(vals)] for i in range(n)] for j in range(3)]
+                sp = spec(("q0", "q2"), shape, [((0, 0), cols[0]), ((1, 0), cols[1]), ((2, 3), cols[2])], "i8")
+                p, m = build_checked(sp), model_of(sp)
+                R.state(("bigints", shape, rot))
+                for target in ("StringIO", "path"):
+                    for spelling, save in (("numpoly", numpoly.savetxt), ("numpy", numpy.savetxt)):
+                        R.tr()
+                        scratch = tempfile.mkdtemp(prefix="c13b-") if target == "path" else None
+                        try:
+                            if target == "path":
+                                f = os.path.join(scratch, "p.txt")
+                                save(f, p, fmt="%d")
+                                q = numpoly.loadtxt(f, dtype=int)
+                            else:
+                                f = io.StringIO()
+                                save(f, p, fmt="%d")
+                                f.seek(0)
+                                q = numpoly.loadtxt(f, dtype=int)
+                        except Exception as err:  # noqa: BLE001
+                            R.fail("savetxt/loadtxt", "exception", f"big integers {cols} fmt=%d dtype=int via {target}/{spelling}: {type(err).__name__}: {err}", tags=["bigints"])
+                            continue
+                        finally:
+                            if scratch:
+                                shutil.rmtree(scratch, ignore_errors=True)
+                        if not isinstance(q, numpoly.ndpoly) or tuple(q.shape) != shape or q.dtype.kind != "i" or alpha(q) != m or tuple(q.names) != ("q0", "q2"):
+                            R.fail("savetxt/loadtxt", "wrong-value", f"big integers {cols} fmt=%d dtype=int via {target}/{spelling}: loaded {str(q)[:200]} ({getattr(q, 'dtype', None)})", tags=["bigints"])
+                        else:
+                            R.outcome(("bigints", shape, rot, target, spelling))
     elif k == "plain":
         # a file without the numpoly header loads as a plain array: header line x delimiter x target x loader keywords
         scratch = tempfile.mkdtemp(prefix="c13p-")
